@@ -355,6 +355,16 @@ static void run_le(std::istringstream& is)
         {
             print_mat("LAMREF", DenseMatrix(ref.eigenvalues().transpose()));
             print_mat("VREF", DenseMatrix(ref.eigenvectors()));
+            // oracle contract of GeneralizedSelfAdjointEigenSolver (the class the library uses), measured on
+            // this call: L V = D V Lambda, V^T D V = I, V (V^T D) = I, ascending
+            const DenseMatrix V = ref.eigenvectors();
+            const DenseVector lam = ref.eigenvalues();
+            double res = (Lref * V - Dref * V * lam.asDiagonal()).cwiseAbs().maxCoeff() / std::max(1.0, Lref.cwiseAbs().maxCoeff());
+            double gram = (V.transpose() * Dref * V - DenseMatrix::Identity(n, n)).cwiseAbs().maxCoeff();
+            double comp = (V * (V.transpose() * Dref) - DenseMatrix::Identity(n, n)).cwiseAbs().maxCoeff();
+            int asc = 1;
+            for (int i = 0; i + 1 < n; i++) if (lam(i) > lam(i + 1)) asc = 0;
+            printf("@ORACLE 1 4 %a %a %a %a\n", res, gram, comp, (double)asc);
         }
         else
             printf("@REFFAIL\n");
@@ -403,6 +413,17 @@ static void run_dmap(std::istringstream& is)
     {
         print_mat("EVAL", DenseMatrix(ref.eigenvalues().transpose()));
         print_mat("EVEC", DenseMatrix(ref.eigenvectors()));
+        {
+            // oracle contract of SelfAdjointEigenSolver measured on this call: M V = V Lambda, V^T V = I, ascending
+            const DenseMatrix V = ref.eigenvectors();
+            const DenseVector lam = ref.eigenvalues();
+            double res = (M * V - V * lam.asDiagonal()).cwiseAbs().maxCoeff();
+            double gram = (V.transpose() * V - DenseMatrix::Identity(n, n)).cwiseAbs().maxCoeff();
+            double comp = (V * V.transpose() - DenseMatrix::Identity(n, n)).cwiseAbs().maxCoeff();
+            int asc = 1;
+            for (int i = 0; i + 1 < n; i++) if (lam(i) > lam(i + 1)) asc = 0;
+            printf("@ORACLE 1 4 %a %a %a %a\n", res, gram, comp, (double)asc);
+        }
     }
     else
         printf("@REFFAIL\n");
